@@ -69,6 +69,12 @@
   A5 the initial 3x repetition / ssdp:update / unicast M-SEARCH (no MX) are not implemented.
   A6 IPv6: every link is announced to the site-local and then the link-local group; a device NT longer than 350
      octets is never announced; a datagram that does not fit 4096 octets is silently not sent.
+  A7 the request filter is stricter than UPnP asks: requests with an octet > 126 or a control character anywhere in
+     the header, with "SP:" , with bare LF line ends, with two HOST fields or a lower-case method are dropped
+     (http_req_sec_chk / http_parse_req_line); MAN must be exactly "ssdp:discover" with the quotes; HTTP/1.0 and a
+     body after the header are tolerated.  Field names are matched case-insensitively, values are trimmed.
+  A8 max_age (UPnP: >= 1800) and ann_interval (UPnP: < max_age / 2) are taken as given; the multicast hop limit
+     defaults to 1 (UPnP 1.1: SHOULD default to 2).
  ***************************************************************************************************************)
 EXTENDS Naturals, Integers, Sequences, FiniteSets, TLC
 
@@ -359,6 +365,11 @@ DevAdd(s, d, p) ==
                                    !.devs = Append(@, d), !.allocs = @ + 1 + (IF s.devsarr THEN 0 ELSE 1), !.devsarr = TRUE],
                 rc |-> "0"]
 
+(* the other natural repair of "adderr": grow the array BEFORE arming the timer - a failure then leaves no output at all *)
+DevAddAlt(s, d, p) ==
+  LET x == DevAdd(s, d, p) IN
+  IF x.rc = "ENOMEM" /\ Has(s, "adderr") /\ Len(x.s.out) = Len(s.out) + 2 THEN [s |-> [x.s EXCEPT !.out = s.out], rc |-> "ENOMEM"] ELSE x
+
 SvcAdd(s, d, v) ==
   LET a1 == Alloc(s) IN
   IF ~a1.ok THEN [s |-> a1.s, rc |-> "ENOMEM"]
@@ -416,8 +427,13 @@ SendNotify(s) ==
       all == UNION {LinkSetOfDev(s, s.devs[i]) : i \in 1..Len(s.devs)}
   IN IF McComplete(s, SubSeq(s1.out, Len(s.out) + 1, Len(s1.out)), all, "alive") THEN s1 ELSE Viol(s1, "announce-set")
 
-(* request shapes (rendered to octets by the rig; the label says what the text is) *)
-AnsweredShapes == {"ok", "lcase", "extra", "mxbig", "pad", "mx0", "mxtext", "body", "v10"}   \* mx0 / mxtext: accepted deviation A2
+(* request shapes (rendered to octets by the rig, rig/checks/x07.py render(); the label says what the text is):
+   ok = the UPnP 1.1 M-SEARCH; lcase = lower-case field names; extra = more fields, other order; mxbig = MX: 120;
+   pad = blanks around the values; mx0 / mxtext = MX: 0 / MX: soon (A2); body = octets after the header; v10 = HTTP/1.0 (A7);
+   notify / resp = traffic of other devices on the group; get, path = other method / request target; noman, badman
+   (no quotes), nomx, nost = missing or wrong required field; noterm = no empty line; empty, short, bin = not a
+   request at all; ctl, hi, spcolon, lf, twohost, lmethod = dropped by the request filter (A7) *)
+AnsweredShapes == {"ok", "lcase", "extra", "mxbig", "pad", "mx0", "mxtext", "body", "v10"}
 IgnoredShapes  == {"notify", "resp", "get", "path", "noman", "badman", "nomx", "nost", "noterm", "empty", "short", "ctl",
                    "bin", "hi", "spcolon", "lf", "twohost", "lmethod"}
 (* one datagram: dg = [sk, ifx, src, shape, st] *)
@@ -461,21 +477,24 @@ RECURSIVE DestroyDevsShipped(_, _)
 DestroyDevsShipped(s, i) == IF i > Len(s.devs) THEN s ELSE DestroyDevsShipped(DevDel(s, s.devs[i]), i + 1)
 RECURSIVE DestroyIfsShipped(_, _)
 DestroyIfsShipped(s, i) == IF i > Len(s.ifs) THEN s ELSE DestroyIfsShipped(IfDel(s, s.ifs[i].ix), i + 1)
-(* repaired: while (cnt) del(a[cnt - 1]) *)
-RECURSIVE DestroyDevsAll(_)
-DestroyDevsAll(s) == IF Len(s.devs) = 0 THEN s ELSE DestroyDevsAll(DevDel(s, s.devs[Len(s.devs)]))
-RECURSIVE DestroyIfsAll(_)
-DestroyIfsAll(s) == IF Len(s.ifs) = 0 THEN s ELSE DestroyIfsAll(IfDel(s, s.ifs[Len(s.ifs)].ix))
-Destroy(s) ==
-  LET s1 == IF ~s.devsarr THEN s ELSE IF Has(s, "destroyall") THEN DestroyDevsAll(s) ELSE DestroyDevsShipped(s, 1)
+(* repaired: every device and interface is deleted.  The order is not part of the property; the proposed patch deletes
+   the last element until the array is empty ("rev"), deleting slot 0 until empty ("fwd") is as good - the exhaustive
+   model uses "rev", trace validation accepts either *)
+RECURSIVE DestroyDevsAll(_, _)
+DestroyDevsAll(s, ord) == IF Len(s.devs) = 0 THEN s ELSE DestroyDevsAll(DevDel(s, s.devs[IF ord = "rev" THEN Len(s.devs) ELSE 1]), ord)
+RECURSIVE DestroyIfsAll(_, _)
+DestroyIfsAll(s, ord) == IF Len(s.ifs) = 0 THEN s ELSE DestroyIfsAll(IfDel(s, s.ifs[IF ord = "rev" THEN Len(s.ifs) ELSE 1].ix), ord)
+DestroyOrd(s, ord) ==
+  LET s1 == IF ~s.devsarr THEN s ELSE IF Has(s, "destroyall") THEN DestroyDevsAll(s, ord) ELSE DestroyDevsShipped(s, 1)
       s2 == [s1 EXCEPT !.allocs = @ - (IF s.devsarr THEN 1 ELSE 0)]
-      s3 == IF ~s.ifsarr THEN s2 ELSE IF Has(s, "destroyall") THEN DestroyIfsAll(s2) ELSE DestroyIfsShipped(s2, 1)
+      s3 == IF ~s.ifsarr THEN s2 ELSE IF Has(s, "destroyall") THEN DestroyIfsAll(s2, ord) ELSE DestroyIfsShipped(s2, 1)
       s4 == [s3 EXCEPT !.allocs = @ - (IF s.ifsarr THEN 1 ELSE 0)]
       s5 == IF 4 \in s.socks THEN Emit(s4, [e |-> "close", sk |-> 4]) ELSE s4
       s6 == IF 6 \in s.socks THEN Emit(s5, [e |-> "close", sk |-> 6]) ELSE s5
       left == Len(s6.devs)
       s7 == [s6 EXCEPT !.alive = FALSE, !.socks = {}, !.zomb = @ + left]
   IN IF left > 0 \/ Len(s7.ifs) > 0 THEN Viol(s7, IF left > 0 THEN "zombie-timer" ELSE "destroy-leak") ELSE s7
+Destroy(s) == DestroyOrd(s, "rev")
 
 (* ------------------------------------------------------------------ ledger as the binding observes it *)
 Timers(s)  == (IF s.alive THEN Len(s.devs) ELSE 0) + s.zomb
